@@ -185,7 +185,8 @@ def mutations(text, rng, nrand):
                                                + tk[m + 1:]] + toks[i + 1:]))
     for j in JUNK:
         out.append(text + j)
-        out.append(text + " " + j)
+        if nrand > 20:                 # thorough tier only
+            out.append(text + " " + j)
         out.append(j + text)
     for _ in range(nrand):
         t = list(toks)
@@ -393,12 +394,19 @@ def lenient_pair(kind, attr, text, attrs):
             d0 = deep_fields(obj) if which == "A" else None
             cnt.n, cnt.own, cnt.obj = 0, [], obj
             exc = ""
+            if which == "A":
+                _const_check(obj)
+                _T["obj"] = obj
             try:
                 setattr(obj, attr, pyvalue(text))
             except xml.dom.DOMException as e:
                 exc = type(e).__name__
             except Exception as e:  # noqa
                 exc = "!" + type(e).__name__
+            finally:
+                _T["obj"] = None
+            if which == "A":
+                _const_check(obj)
             nerr = cnt.n
             p1 = public_fp(sheet, obj, attrs)
             if which == "A":
@@ -434,6 +442,182 @@ def lenient_pair(kind, attr, text, attrs):
     return out
 
 
+# ----------------------------------------------------------------------------- run-time validation of the reviewed tables
+# The tables of translate/scripts.py are trusted by the theorems.  Every entry is checked against the executions of this
+# run, on the object under test only:
+#   PURE_SELF       the helper is wrapped: a deep snapshot of self before/after the call must be equal
+#   MUTATORS        wrapped: the attributes of self that changed must be the one field the table names; no DOM exception
+#   DEAD_CHECKS     the inner property setter is wrapped while the outer setter runs: no check (log call that may raise)
+#                   may be reached and no DOM exception may leave it
+#   CONST_EMPTY_IN_MODE   in the mode named, the attribute is '' before and after every assignment
+_T = {"installed": False, "obj": None, "outer": [], "checks": 0,
+      "pure_calls": {}, "pure_snap": 0, "pure_bad": [], "mut_calls": {}, "mut_bad": [], "dead_calls": {}, "dead_fired": [],
+      "const_checked": 0, "const_bad": []}
+
+
+def _t_reset():
+    _T.update(obj=None, outer=[], pure_calls={}, pure_snap=0, pure_bad=[], mut_calls={}, mut_bad=[], dead_calls={},
+              dead_fired=[], const_checked=0, const_bad=[])
+
+
+def _t_report():
+    return {"pc": dict(_T["pure_calls"]), "ps": _T["pure_snap"], "pb": _T["pure_bad"][:3], "mc": dict(_T["mut_calls"]),
+            "mb": _T["mut_bad"][:3], "dc": dict(_T["dead_calls"]), "df": _T["dead_fired"][:3],
+            "cc": _T["const_checked"], "cb": _T["const_bad"][:3]}
+
+
+def _all_classes():
+    import inspect
+    import pkgutil
+    import importlib
+    import css_parser
+    import css_parser.css
+    import css_parser.stylesheets
+    import css_parser.util
+    seen = {}
+    mods = [css_parser.util]
+    for pkg in (css_parser.css, css_parser.stylesheets):
+        for m in pkgutil.iter_modules(pkg.__path__):
+            try:
+                mods.append(importlib.import_module(pkg.__name__ + "." + m.name))
+            except Exception:  # noqa
+                pass
+    for mod in mods:
+        for c in vars(mod).values():
+            if inspect.isclass(c) and (c.__module__ or "").startswith("css_parser"):
+                seen[id(c)] = c
+    return list(seen.values())
+
+
+def _install_tables():
+    if _T["installed"]:
+        return
+    _T["installed"] = True
+    import inspect
+    import xml.dom
+    import css_parser.errorhandler as EH
+    from translate.scripts import PURE_SELF, MUTATORS, DEAD_CHECKS
+
+    orig_handle = EH._ErrorHandler._ErrorHandler__handle
+
+    def handle(self, msg="", token=None, error=xml.dom.SyntaxErr, neverraise=False, args=None):
+        if not neverraise and _T["obj"] is not None:
+            _T["checks"] += 1
+        return orig_handle(self, msg, token, error, neverraise, args)
+    EH._ErrorHandler._ErrorHandler__handle = handle
+
+    def unmangled(k):
+        # _Cls__name -> __name
+        if k.startswith("_") and "__" in k[1:]:
+            i = k.index("__", 1)
+            return k[i:]
+        return k
+
+    def wrap_pure(name, f):
+        def w(self, *a, **k):
+            if _T["obj"] is None or self is not _T["obj"]:
+                return f(self, *a, **k)
+            n = _T["pure_calls"][name] = _T["pure_calls"].get(name, 0) + 1
+            check = n == 1 or n % 40 == 0
+            if check:
+                before = deep_fields(self)
+            try:
+                return f(self, *a, **k)
+            finally:
+                if check:
+                    _T["pure_snap"] += 1
+                    after = deep_fields(self)
+                    if before != after:
+                        _T["pure_bad"].append([name, sorted(x for x in set(before) | set(after) if before.get(x) != after.get(x))])
+        w.__name__ = getattr(f, "__name__", name)
+        w.__wrapped_c19__ = f
+        return w
+
+    def wrap_mut(name, fld, f):
+        def w(self, *a, **k):
+            if _T["obj"] is None or self is not _T["obj"]:
+                return f(self, *a, **k)
+            _T["mut_calls"][name] = _T["mut_calls"].get(name, 0) + 1
+            before = deep_fields(self)
+            try:
+                return f(self, *a, **k)
+            except xml.dom.DOMException as e:
+                _T["mut_bad"].append([name, "raised " + type(e).__name__])
+                raise
+            finally:
+                after = deep_fields(self)
+                ch = sorted(x for x in set(before) | set(after) if before.get(x) != after.get(x))
+                if any(x != fld for x in ch):
+                    _T["mut_bad"].append([name, ch])
+        w.__name__ = getattr(f, "__name__", name)
+        return w
+
+    for c in _all_classes():
+        for k, v in list(vars(c).items()):
+            if not inspect.isfunction(v):
+                continue
+            nm = unmangled(k)
+            if nm in PURE_SELF or k in PURE_SELF:
+                setattr(c, k, wrap_pure(nm if nm in PURE_SELF else k, v))
+            elif k in MUTATORS:
+                setattr(c, k, wrap_mut(k, MUTATORS[k], v))
+
+    by_name = {c.__name__: c for c in _all_classes()}
+    for (cname, outer, attr), why in DEAD_CHECKS.items():
+        c = by_name.get(cname)
+        if c is None:
+            continue
+        key = "%s.%s in %s" % (cname, attr, outer)
+        # the outer setter: the property of the class whose fset has that name
+        for pn, pv in list(vars(c).items()):
+            if isinstance(pv, property) and pv.fset is not None and getattr(pv.fset, "__name__", "") == outer:
+                def mk_outer(fset, tag):
+                    def w(self, value):
+                        _T["outer"].append((id(self), tag))
+                        try:
+                            return fset(self, value)
+                        finally:
+                            _T["outer"].pop()
+                    w.__name__ = fset.__name__
+                    return w
+                setattr(c, pn, property(pv.fget, mk_outer(pv.fset, (cname, outer)), pv.fdel, pv.__doc__))
+        inner = None
+        for k in c.__mro__:
+            if attr in vars(k) and isinstance(vars(k)[attr], property):
+                inner = (k, vars(k)[attr])
+                break
+        if inner is None or inner[1].fset is None:
+            continue
+
+        def mk_inner(fset, key, tag):
+            def w(self, value):
+                if _T["obj"] is None or self is not _T["obj"] or (id(self), tag) not in _T["outer"]:
+                    return fset(self, value)
+                _T["dead_calls"][key] = _T["dead_calls"].get(key, 0) + 1
+                c0 = _T["checks"]
+                try:
+                    r = fset(self, value)
+                except xml.dom.DOMException as e:
+                    _T["dead_fired"].append([key, "raised " + type(e).__name__])
+                    raise
+                if _T["checks"] != c0:
+                    _T["dead_fired"].append([key, "a check was reached (logged)"])
+                return r
+            w.__name__ = fset.__name__
+            return w
+        k, pv = inner
+        setattr(k, attr, property(pv.fget, mk_inner(pv.fset, key, (cname, outer)), pv.fdel, pv.__doc__))
+
+
+def _const_check(obj):
+    from translate.scripts import CONST_EMPTY_IN_MODE
+    for cname, flag, attr in CONST_EMPTY_IN_MODE:
+        if any(k.__name__ == cname for k in type(obj).__mro__) and getattr(obj, flag, False):
+            _T["const_checked"] += 1
+            if getattr(obj, attr, None) != "":
+                _T["const_bad"].append([cname, flag, attr, repr(getattr(obj, attr, None))])
+
+
 def script_name(obj, attr):
     for k in type(obj).__mro__:
         if attr in k.__dict__ and isinstance(k.__dict__[attr], property):
@@ -460,6 +644,8 @@ def run_case_(case):
     import xml.dom
     import css_parser
     kind, attr, text, ro = case[:4]
+    _install_tables()
+    _t_reset()
     try:
         sheet, obj = build(kind)
     except Exception as e:  # noqa
@@ -472,6 +658,8 @@ def run_case_(case):
             obj._readonly = True
         pub0, deep0 = public_fp(sheet, obj, attrs), deep_fields(obj)
         raised, exc, where, msg = 0, "", "", ""
+        _const_check(obj)
+        _T["obj"] = obj
         try:
             setattr(obj, attr, pyvalue(text))
         except xml.dom.DOMException as e:
@@ -480,6 +668,9 @@ def run_case_(case):
             where = "_setHref" if "_setHref" in fr else (fr[-2] if len(fr) > 1 and fr[-1] in ("__handle",) else (fr[-1] if fr else ""))
         except Exception as e:  # noqa  -- a crash, not a rejection: outside the statement, counted
             raised, exc, msg = 2, type(e).__name__, str(e)[:120]
+        finally:
+            _T["obj"] = None
+        _const_check(obj)
         pub1, deep1 = public_fp(sheet, obj, attrs), deep_fields(obj)
     finally:
         css_parser.log.raiseExceptions = True
@@ -491,6 +682,7 @@ def run_case_(case):
         res["before_after"] = [str(pub0.get(k))[:200], str(pub1.get(k))[:200]]
     if raised == 1 and not ro and (len(case) < 5 or case[4]):
         res.update(lenient_pair(kind, attr, text, attrs))
+    res["tbl"] = _t_report()
     return res
 
 
@@ -594,10 +786,38 @@ def run(ctx):
     stats = {"raised": 0, "accepted": 0, "crashed": 0, "compared": 0, "nontrivial": set(), "unmodelled": set(),
              "ro_scripts": {}, "lenient": 0, "lenient_logged": 0, "lenient_own_error": 0}
     mism = []
+    tables = {"pure_calls": {}, "pure_snapshots": 0, "pure_violations": [], "mutator_calls": {}, "mutator_violations": [],
+              "dead_check_calls": {}, "dead_checks_fired": [], "const_checked": 0, "const_violations": []}
     for case, r in zip(cases, results):
         d = check_case(ctx, case, r, summ, stats)
         if d:
             mism.append(d)
+        tb = r.get("tbl")
+        if tb and r.get("script") in summ:          # the tables are claims about the translated setters only
+            for k, v in tb["pc"].items():
+                tables["pure_calls"][k] = tables["pure_calls"].get(k, 0) + v
+            for k, v in tb["mc"].items():
+                tables["mutator_calls"][k] = tables["mutator_calls"].get(k, 0) + v
+            for k, v in tb["dc"].items():
+                tables["dead_check_calls"][k] = tables["dead_check_calls"].get(k, 0) + v
+            tables["pure_snapshots"] += tb["ps"]
+            tables["const_checked"] += tb["cc"]
+            for key, src in (("pure_violations", "pb"), ("mutator_violations", "mb"), ("dead_checks_fired", "df"),
+                             ("const_violations", "cb")):
+                for x in tb[src]:
+                    if len(tables[key]) < 10:
+                        tables[key].append([describe(case, r)] + list(x))
+    from translate.scripts import PURE_SELF, MUTATORS, DEAD_CHECKS
+    tables["pure_helpers_never_called"] = sorted(set(PURE_SELF) - set(tables["pure_calls"]))
+    tables["mutators_never_called"] = sorted(set(MUTATORS) - set(tables["mutator_calls"]))
+    tables["dead_checks_never_reached"] = sorted("%s.%s in %s" % (c, a, o) for (c, o, a) in DEAD_CHECKS
+                                                 if "%s.%s in %s" % (c, a, o) not in tables["dead_check_calls"])
+    tables["static_helpers_without_self"] = sorted(n for n in PURE_SELF if n in ("_normalize", "_normalizeatkeyword"))
+    for key, what in (("pure_violations", "PURE_SELF"), ("mutator_violations", "MUTATORS"), ("dead_checks_fired", "DEAD_CHECKS"),
+                      ("const_violations", "CONST_EMPTY_IN_MODE")):
+        if tables[key]:
+            ctx.broken("correspondence", "reviewed table %s of translate/scripts.py contradicted by an execution" % what,
+                       json.dumps(tables[key][:4]))
     if mism:
         ctx.broken("correspondence", "setter executions vs generated scripts (reviewed tables of translate/scripts.py)",
                    "%d of %d cases; first: %s" % (len(mism), len(cases), " || ".join(mism[:4])))
@@ -668,6 +888,7 @@ def run(ctx):
         "disagreements_checked": stats["compared"],
         "setters_modelled": len(summ), "setters_not_modelled_oracle_only": sorted(x for x in stats["unmodelled"] if x),
         "refused_by_translator": refused,
+        "table_validation": tables,
         "not_atomic_scripts": not_atomic,
         "trusted_base": TRUSTED,
     }, assumptions=ASSUME, search=search)
